@@ -58,12 +58,11 @@ class Shuffle(pipes.Shuffle, EnvironmentFilter):
 
                 # np.corrcoef(R1,R2)
 
-            old_seed = self._seed
-            new_seed = self._seed * 3.21 if self._seed is not None else self._seed
+            #we don't store this seed on self because a reader can stop part-way (or a
+            #downstream cache can keep our iterator open) which would leave us changed
+            seed = self._seed * 3.21 if self._seed is not None else self._seed
 
-            self._seed = new_seed
-            yield from super().filter(interactions)
-            self._seed = old_seed
+            yield from CobaRandom(seed).shuffle(list(interactions),inplace=True)
 
         else:
             yield from super().filter(interactions)
